@@ -315,7 +315,7 @@ func RunWorker(m *Monitor, tier string, seed int64, from, to int, out, journalPa
 		timeout = 180 * time.Second
 	}
 	if replay {
-		timeout *= 5
+		timeout *= 2
 	}
 	w.Progress()
 	done := make(chan struct{})
